@@ -516,7 +516,7 @@ theorem crcvBlock_spec (single : Bool) (cap : Nat) (junk : UInt8) (body : Bytes)
     · exact hh.2 (by omega)
     · exact hh.1 e1
   rw [if_neg hund] at h
-  -- "More set on the last block number" (fix 1edd277): refused, nothing stored, the lg_crcv is gone
+  -- "More set on the last block number" (fix 70f6ff3): refused, nothing stored, the lg_crcv is gone
   by_cases hlastnum : more body.length szx num ≠ 0 ∧ 0xFFFFF ≤ num
   · rw [if_pos hlastnum] at h
     cases h
